@@ -78,6 +78,32 @@ func Apply(l *Live, s *State, ev Event, tpls Templates) *StepOut {
 	in := l.API.Inner()
 	l.API.ResetLog()
 	ns, name := split(ev.A)
+	if strings.HasPrefix(ev.K, "R_") && strings.HasPrefix(ev.B, "fault:") {
+		// a controller step with one injected fault: B = "fault:<kind>:<text>"; the first call whose text contains
+		// <text> (or, for a pod creation, whose target node is <text>) gets the fault
+		parts := strings.SplitN(ev.B, ":", 3)
+		done := false
+		l.API.NoStickyStop = true
+		l.API.FaultFn = func(idx int, c *Call) string {
+			if done {
+				if parts[1] == FaultStop {
+					return FaultStop
+				}
+				return ""
+			}
+			hit := strings.Contains(c.Key(), parts[2])
+			if c.Kind == "Pod" && c.Verb == "create" {
+				if p, ok := c.Obj.(*corev1.Pod); ok && TargetNode(p) == parts[2] {
+					hit = true
+				}
+			}
+			if hit {
+				done = true
+				return parts[1]
+			}
+			return ""
+		}
+	}
 	switch ev.K {
 	case "R_eds":
 		out.RR = l.ReconcileEDS(ns, name)
